@@ -548,12 +548,14 @@ def norm_extreme(Q, t):
     return "other:" + term_str(t)[:60]
 
 
-def r_extreme(ctx, view, Q):
+def r_extreme(ctx, view, Q, only=None):
     prog = view.prog
     ctx.cur = view
     for side, names in EXTREME_GROUPS[Q].items():
         want = {"root"} if Q == PQ else {"find_" + side}
         for nm in names:
+            if only and nm not in only:
+                continue
             f = prog.fn("%s::%s" % (Q, nm))
             ctx.anchor("%s::%s" % (Q, nm), f is not None)
             ps = addressed_positions(view, Q, f)
@@ -564,7 +566,7 @@ def r_extreme(ctx, view, Q):
             # empty queue -> None: guarded by len()==0 / size==0 / find_* / heap.first()
             ok2, why2 = none_on_empty(view, Q, f)
             ctx.ob("R-EXTREME", "%s::%s:none-on-empty" % (QNAME[Q], nm), ok2, f.loc(), why2)
-    if Q == DPQ:
+    if Q == DPQ and not only:
         r_findmax(ctx, view)
 
 
